@@ -182,6 +182,17 @@ def stream_row_counters(ctx):
             case = {"bucket_index": b, "id_columns": dims, "rows": [[int(x) for x in r] for r in rows] if len(rows) <= 20 else len(rows), "entities": [len(c) for c, _ in contribs],
                     "idless": [u for _, u in contribs], "salt": ap.salt.hex(), "bucket_seed": seed, "noise_sd": ap.layer_noise_sd, "direct": direct, "factory_counter": got1, "fresh_counter": got2}
             S.count((repr(rows), seed, repr(ap)), seen_idless, case, tag=f"dims{dims}/" + ("after-idless" if seen_idless else "first"))
+            # the same counter asked again, no row added, under another salt / noise level / flattening intervals / bucket seed kept: the answer is that of its rows
+            # under the context it is asked with, not the earlier one
+            if not got1.startswith("ERR") and R.random() < 0.6:
+                ap2 = AnonymizationParams(salt=R.getrandbits(64).to_bytes(8, "little") if R.random() < 0.5 else ap.salt, layer_noise_sd=R.choice([0.0, 1.0, 2.5]),
+                                          outlier_count=FlatteningInterval(*R.choice([(1, 2), (2, 5), (1, 1), (3, 6)])), top_count=FlatteningInterval(*R.choice([(2, 5), (2, 2), (1, 3), (4, 6)])))
+                direct2 = AS.py_cntm(A, ap2, seed, contribs); direct2 = "0" if direct2 == "none" else direct2
+                try: again = str(int(c1.noisy_count(AnonymizationContext(U64(seed), ap2))))
+                except Exception as e: again = f"ERR raised {type(e).__name__}"
+                if again != direct2:
+                    ctx.oracle_fail(f"a row counter asked a second time (no rows added) under other parameters answers {again}; its rows under those parameters give {direct2} "
+                                    f"(first answer {got1})", dict(case, second_params=repr(ap2), second_direct=direct2, second_answer=again), "row-counter-asked-again")
             if got1 != direct or got2 != direct:
                 ctx.oracle_fail(f"bucket {b} of a sequence counted through one factory: released count {got1} (fresh factory: {got2}) but its own rows give {direct}: "
                                 f"rows of other buckets or id-less rows beyond its own add to the count", case, "row-counter-sequence")
